@@ -346,6 +346,20 @@ func (p *prog) addJS2Go(kind, code, desc, spec, detAcc string, typed []typedWant
 	return id
 }
 
+// addObserve adds a behaviour the documentation does not settle: it is executed and its outcome is
+// reported in the evidence ("O <label> <outcome>" lines), never asserted.
+func (p *prog) addObserve(label, code string, t *Ty, q int) {
+	var expr string
+	if t == nil {
+		expr = "shAny(mk(" + goQuote(code) + ").Interface())"
+	} else {
+		p.needTrip(t)
+		expr = showExpr(t, fmt.Sprintf("rcv_%s(%d, mk(%s))", t.Key(), q, goQuote(code)))
+	}
+	p.body = append(p.body, fmt.Sprintf("\tfunc() {\n\t\tdefer func() {\n\t\t\tif e := recover(); e != nil {\n\t\t\t\tprintln(%q + qq(errStr(e)))\n\t\t\t}\n\t\t}()\n\t\tprintln(%q + %s)\n\t}()\n",
+		"O "+label+" panic:", "O "+label+" ", expr))
+}
+
 // source renders the program files.
 func (p *prog) source() map[string]string {
 	var b strings.Builder
